@@ -39,12 +39,12 @@ func Viol(sig, format string, args ...any) Outcome {
 
 // Prop is one generated check of one listed property.
 type Prop[C any] struct {
-	ID      string // property id, e.g. "C04"
-	Quick   int    // cases in the quick tier
-	Thor    int    // cases in the thorough tier (all shards together)
-	Rule    string // the non-triviality rule, in words (goes to the evidence file)
-	Gen     func(t *rapid.T) C
-	Run     func(t *testing.T, c C) Outcome
+	ID       string // property id, e.g. "C04"
+	Quick    int    // cases in the quick tier
+	Thor     int    // cases in the thorough tier (all shards together)
+	Rule     string // the non-triviality rule, in words (goes to the evidence file)
+	Gen      func(t *rapid.T) C
+	Run      func(t *testing.T, c C) Outcome
 	NoShrink bool // schedule/real-thread dependent: do not let rapid spend time shrinking
 }
 
@@ -52,14 +52,14 @@ type Prop[C any] struct {
 // environment
 
 var (
-	Tier    = envStr("VERIF_TIER", "quick")
-	Seed    = envInt("VERIF_SEED", 1)
-	Shard   = envInt("VERIF_SHARD", 0)
-	Shards  = envInt("VERIF_SHARDS", 1)
-	OutDir  = envStr("VERIF_OUT", "")
-	Replay  = envStr("VERIF_REPLAY", "")
-	Mode    = envStr("VERIF_MODE", "std")
-	Scale   = envFloat("VERIF_SCALE", 1.0) // multiplies case counts (used by sensitivity runs)
+	Tier     = envStr("VERIF_TIER", "quick")
+	Seed     = envInt("VERIF_SEED", 1)
+	Shard    = envInt("VERIF_SHARD", 0)
+	Shards   = envInt("VERIF_SHARDS", 1)
+	OutDir   = envStr("VERIF_OUT", "")
+	Replay   = envStr("VERIF_REPLAY", "")
+	Mode     = envStr("VERIF_MODE", "std")
+	Scale    = envFloat("VERIF_SCALE", 1.0) // multiplies case counts (used by sensitivity runs)
 	FoundDir = envStr("VERIF_FOUND", "/verif/replays/found")
 )
 
@@ -301,9 +301,9 @@ func Check[C any](t *testing.T, p Prop[C]) {
 	}
 
 	var best struct {
-		set  bool
-		raw  []byte
-		out  Outcome
+		set bool
+		raw []byte
+		out Outcome
 	}
 	defer func() {
 		if best.set {
